@@ -3,7 +3,7 @@
 //! Note that some array operations also operate on strings as arrays
 //! of characters.
 
-use serde_json::{Map, Value};
+use serde_json::{Map, Number, Value};
 
 use crate::error::Error;
 use crate::op::logic;
@@ -339,6 +339,44 @@ pub fn merge(items: &Vec<&Value>) -> Result<Value, Error> {
     )))
 }
 
+/// Whether two JSON numbers have the same numeric value, however they are
+/// spelled (1, 1.0 and 1e0 are the same number).
+fn number_eq(first: &Number, second: &Number) -> bool {
+    fn as_integer(number: &Number) -> Option<i128> {
+        number
+            .as_i64()
+            .map(i128::from)
+            .or_else(|| number.as_u64().map(i128::from))
+            .or_else(|| {
+                number
+                    .as_f64()
+                    .filter(|f| f.fract() == 0.0 && f.abs() < 1e30)
+                    .map(|f| f as i128)
+            })
+    }
+    match (as_integer(first), as_integer(second)) {
+        (Some(f), Some(s)) => f == s,
+        (None, None) => first.as_f64() == second.as_f64(),
+        _ => false,
+    }
+}
+
+/// Structural equality of JSON values, comparing numbers by value.
+fn deep_eq(first: &Value, second: &Value) -> bool {
+    match (first, second) {
+        (Value::Number(f), Value::Number(s)) => number_eq(f, s),
+        (Value::Array(f), Value::Array(s)) => {
+            f.len() == s.len() && f.iter().zip(s.iter()).all(|(f, s)| deep_eq(f, s))
+        }
+        (Value::Object(f), Value::Object(s)) => {
+            f.len() == s.len()
+                && f.iter()
+                    .all(|(key, f)| s.get(key).map(|s| deep_eq(f, s)).unwrap_or(false))
+        }
+        _ => first == second,
+    }
+}
+
 /// Perform containment checks with "in"
 // TODO: make this a lazy operator, since we don't need to parse things
 // later on in the list if we find something that matches early.
@@ -355,7 +393,9 @@ pub fn in_(items: &Vec<&Value>) -> Result<Value, Error> {
         // implementation is relying on broken, undefined behavior, it seems
         // okay to update that behavior to work in a more intuitive way.
         Value::Null => Ok(Value::Bool(false)),
-        Value::Array(possibles) => Ok(Value::Bool(possibles.contains(needle))),
+        Value::Array(possibles) => Ok(Value::Bool(
+            possibles.iter().any(|possible| deep_eq(possible, needle)),
+        )),
         Value::String(haystack_string) => {
             // Note: the reference implementation uses the regular old
             // String.prototype.indexOf() function to check for containment,
